@@ -129,7 +129,9 @@ def h : Handler := fun op j =>
         (← getF j "T") (← getF j "eps") (← getF j "rho") (← getFList j "c")))
   | "cls_ext" => do
       pure (showIS bits (extendedClassCall (← getFList j "stoich") (← getFList j "z") (← getFList j "a")
-        (← getF j "T") (← getF j "eps") (← getF j "rho") (← getF j "C") (← getFList j "c")))
+        (← getF j "T") (← getF j "eps") (← getF j "rho")
+        (← match j.getObjVal? "C" with | .ok v => (do pure (some (← asBits v)) : Except String (Option Float)) | .error _ => pure none)
+        (← getFList j "c")))
   | "is_vec" => do
       -- "rows": one list of bit patterns per ion (all of one length), "z": charges
       let rows ← (← getArr j "rows").mapM fun r => do (← asArr r).mapM asBits
